@@ -594,11 +594,15 @@ impl Property for AnyBytes {
 
 ///////////////////////////////////////// concatenated encodings //////////////////////////////////
 
-/// Protocol buffers: parsing the concatenation of two encoded messages gives the same result as
-/// parsing them separately and merging the second into the first - a singular scalar / bytes /
-/// string field takes its LAST occurrence, an optional field the last one present, a repeated field
-/// the occurrences of both in order.  (Singular and optional MESSAGE-typed fields are not asserted:
-/// the standard merges them recursively, prototk replaces them, and the property takes no side.)
+/// Two valid encodings of one struct-shaped type back to back: every singular field then occurs
+/// twice.  C15 promises "a value or an error" for any byte string, so a decoder may keep the last
+/// occurrence (what protocol-buffers parsers do), keep the first, or reject the duplicate; what no
+/// decoder may do is panic or invent a value.  Asserted: no panic; if the bytes are accepted, every
+/// singular or optional scalar / bytes / string field holds a's value or b's value - never a third
+/// one such as both payloads glued together - and every repeated field holds a's elements followed
+/// by b's (repeated fields ARE encoded as repeated occurrences, so that is forced by the round trip
+/// of longer vectors).  Singular and optional MESSAGE-typed fields are not asserted (the standard
+/// merges them recursively, prototk replaces them, and the property takes no side).
 #[derive(Clone, Debug, Serialize, Deserialize)]
 struct ConcatCase {
     ty: MsgId,
@@ -634,34 +638,63 @@ impl Property for Concatenated {
         let (DMsg::Struct(fa), DMsg::Struct(fb)) = (&c.a, &c.b) else { return o };
         let mut bytes = encode(c.ty, &c.a).bytes;
         bytes.extend_from_slice(&encode(c.ty, &c.b).bytes);
+        // (a panic is caught by the runner's guard and reported as panic@<site>)
         let got = match decode(c.ty, &bytes) {
-            Ok((DMsg::Struct(g), 0)) => g,
-            other => {
-                o.fail("concat-decode", format!("the concatenation of two valid encodings of {:?} does not decode completely: {}; a = {} b = {}", c.ty, vcore::truncate(&format!("{other:?}"), 300), show_val(&c.a), show_val(&c.b)));
+            Ok((DMsg::Struct(g), rem)) if g.len() == fields.len() => {
+                if rem != 0 {
+                    o.label("concat:accepted-with-remainder");
+                }
+                g
+            }
+            Ok(other) => {
+                o.fail("concat-decode", format!("decoding the concatenation of two valid encodings of {:?} returned a value of another shape: {}", c.ty, vcore::truncate(&format!("{other:?}"), 300)));
+                return o;
+            }
+            Err(_) => {
+                // a decoder may refuse a second occurrence of a singular field
+                o.label("concat:rejected");
                 return o;
             }
         };
+        o.label("concat:accepted");
         let mut asserted = 0;
         let mut differing = 0;
+        let (mut last_wins, mut first_wins) = (false, false);
         for (i, f) in fields.iter().enumerate() {
             let is_msg = matches!(f.ty, model::Ty::Msg(_));
-            let want = match (&fa[i], &fb[i]) {
-                (DVal::One(_), DVal::One(y)) if !is_msg => DVal::One(y.clone()),
-                (DVal::Opt(x), DVal::Opt(y)) if !is_msg => DVal::Opt(y.clone().or_else(|| x.clone())),
-                (DVal::Rep(x), DVal::Rep(y)) => DVal::Rep(x.iter().chain(y.iter()).cloned().collect()),
+            let ok = match (&fa[i], &fb[i]) {
+                (DVal::One(_), DVal::One(_)) | (DVal::Opt(_), DVal::Opt(_)) if !is_msg => {
+                    if fa[i] != fb[i] {
+                        last_wins |= got[i] == fb[i];
+                        first_wins |= got[i] == fa[i];
+                    }
+                    got[i] == fa[i] || got[i] == fb[i]
+                }
+                (DVal::Rep(x), DVal::Rep(y)) => got[i] == DVal::Rep(x.iter().chain(y.iter()).cloned().collect()),
                 _ => continue,
             };
             asserted += 1;
             if fa[i] != fb[i] {
                 differing += 1;
             }
-            if got[i] != want {
+            if !ok {
                 o.fail(
                     format!("concat-merge:{:?}:{:?}", f.ty, f.shape).replace("Msg(", "Msg").replace(')', ""),
-                    format!("field {} ({:?}, {:?}) of {:?}: decoding enc(a) ++ enc(b) gives {:?}, the protocol-buffers merge of a's {:?} and b's {:?} is {:?}", f.num, f.ty, f.shape, c.ty, got[i], fa[i], fb[i], want),
+                    format!(
+                        "field {} ({:?}, {:?}) of {:?}: decoding enc(a) ++ enc(b) gives {:?}, which is {} (a's field: {:?}, b's field: {:?})",
+                        f.num, f.ty, f.shape, c.ty, got[i],
+                        if f.shape == Shape::Rep { "not a's elements followed by b's" } else { "neither a's value nor b's" },
+                        fa[i], fb[i]
+                    ),
                 );
                 return o;
             }
+        }
+        if last_wins {
+            o.label("concat:last-wins");
+        }
+        if first_wins {
+            o.label("concat:first-wins");
         }
         o.nontrivial = asserted >= 1 && differing >= 1;
         if fields.iter().any(|f| matches!(f.ty, model::Ty::Bytes | model::Ty::Str)) {
@@ -1023,7 +1056,7 @@ fn main() {
     let check = Check::new(
         "C15",
         "exploration",
-        "proptest: a value of one of 20 derived message types (all scalar field types, fixed-size bytes, strings, `string` and `bytes` fields held in PathBuf, optional, repeated, nested to depth 4, recursive, derive on named / tuple / unit structs, enums with unit/unnamed/named variants - named variants with u64, message, repeated, [u8; 64], [u8; 16], bytes, string, float, fixed-width, bool, optional double and PathBuf fields -, Result; integers on 2^k-1/2^k/2^k+1 and their negations, floats on special values and NaN payloads, lengths on 127/128 and 16383/16384) is generated once as a dynamic tree and lowered to the typed value and to an independent wire encoder. Parts: round trip (pack_sz = length, bytes = reference wire encoding, unpack = value bitwise); unknown fields of every wire type (and malformed ones) spliced at field boundaries of any depth: between the fields of struct bodies and named-variant bodies, after the variant field of a nested enum / Result, and - second selector - before the variant field of a nested or top-level enum / Result and after the variant field of a top-level one (whose unpack hands the spliced bytes back as the remainder); random bytes and structure-aware mutations of valid encodings (non-canonical/over-long varints inside consistent lengths, truncation, bit flips, insert/delete); every 1..10-byte varint on the exact-length (slow) and padded (fast) decoder; tags and FieldIterator against an independent wire walker; concatenated encodings enc(a) ++ enc(b) of struct-shaped types decode to the protocol-buffers merge (last occurrence of singular scalar / bytes / string fields, last present optional, repeated fields appended; message-typed singular fields not asserted). Non-trivial: round trip - >= 3 encoded fields and a boundary integer, special float, nested message or non-empty repeated field; splice - >= 1 field spliced into a value with >= 2 encoded fields or with an enum / Result in it; bytes - >= 2 input bytes; varint - every case; iterator - >= 2 fields. Distinct by structural hash of the case.",
+        "proptest: a value of one of 20 derived message types (all scalar field types, fixed-size bytes, strings, `string` and `bytes` fields held in PathBuf, optional, repeated, nested to depth 4, recursive, derive on named / tuple / unit structs, enums with unit/unnamed/named variants - named variants with u64, message, repeated, [u8; 64], [u8; 16], bytes, string, float, fixed-width, bool, optional double and PathBuf fields -, Result; integers on 2^k-1/2^k/2^k+1 and their negations, floats on special values and NaN payloads, lengths on 127/128 and 16383/16384) is generated once as a dynamic tree and lowered to the typed value and to an independent wire encoder. Parts: round trip (pack_sz = length, bytes = reference wire encoding, unpack = value bitwise); unknown fields of every wire type (and malformed ones) spliced at field boundaries of any depth: between the fields of struct bodies and named-variant bodies, after the variant field of a nested enum / Result, and - second selector - before the variant field of a nested or top-level enum / Result and after the variant field of a top-level one (whose unpack hands the spliced bytes back as the remainder); random bytes and structure-aware mutations of valid encodings (non-canonical/over-long varints inside consistent lengths, truncation, bit flips, insert/delete); every 1..10-byte varint on the exact-length (slow) and padded (fast) decoder; tags and FieldIterator against an independent wire walker; concatenated encodings enc(a) ++ enc(b) of struct-shaped types (every singular field occurs twice): no panic; rejection is allowed; if accepted, every singular / optional scalar, bytes or string field holds a's or b's value (never a third one, e.g. both payloads glued together) and every repeated field a's elements followed by b's (message-typed singular fields not asserted). Non-trivial: round trip - >= 3 encoded fields and a boundary integer, special float, nested message or non-empty repeated field; splice - >= 1 field spliced into a value with >= 2 encoded fields or with an enum / Result in it; bytes - >= 2 input bytes; varint - every case; iterator - >= 2 fields. Distinct by structural hash of the case.",
     )
     .assume("fields are written in declaration order, zero/empty values are always written, repeated scalars are not packed, a unit enum variant is an empty length-delimited field: legal protobuf encodings chosen by prototk_derive, mirrored by the reference encoder")
     .assume("wire types 3, 4, 6, 7 and field numbers 0 / 19000..19999 / >= 2^29 are documented as rejected; for those only 'no panic, and Ok implies the known fields are undisturbed' is asserted on messages (the rejection itself is asserted on Tag::unpack)")
@@ -1034,6 +1067,7 @@ fn main() {
     .assume("a derived enum / Result is a oneof: its first tag is the discriminant; an unknown field in that position is an unknown variant and may be rejected (observed: unknown-discriminant); only no-panic and value-undisturbed-if-accepted are asserted there")
     .assume("string fields hold UTF-8: PathBuf values in string×PathBuf fields are generated as valid UTF-8 (bytes×PathBuf carries arbitrary paths and is generated with arbitrary bytes)")
     .assume("a top-level enum / Result returns the bytes after its variant field as the remainder of unpack (that is the buffertk contract for values packed back to back); a remainder equal to exactly the spliced bytes, or none, is accepted there")
+    .assume("duplicated singular fields (concatenated encodings): the property promises a value or an error, so last-occurrence-wins (protocol-buffers parser semantics; observed), first-wins and rejection are all accepted and only labelled; a field value that is neither operand's is a failure, as is a repeated field that is not a's elements followed by b's")
     .pbt(RoundTrip)
     .pbt(Splice)
     .pbt(AnyBytes)
